@@ -5,6 +5,7 @@ plan = {config: {mws:[{name, level, phases}], ep_returns, has_render, handler},
         ops: [{method, path, accept, faults: {function: {beh, exc|value, msg, breaking}}}]}
 """
 from clastic import Application, Route, POST, GET
+from clastic.utils import Redirector
 from clastic import errors as cerrors
 from clastic.errors import ErrorHandler, ContextualErrorHandler, BadGateway
 
@@ -24,12 +25,18 @@ HTTP_CLASSES = [n for n in HTTP_CLASSES if isinstance(getattr(cerrors, n, None),
 VALUES = ['resp', 'resp', 'baseresp', 'str', 'none', 'number', 'dict', 'bytes', 'list']
 MSGS = {'half-emoji': 'cut \ud83d here', 'plain': 'injected failure', 'nonascii': 'défaillance ☃ 中文', 'huge': 'x' * (1 << 20),
         'unprintable': 'ctl\x00\x01\x1b[31m\x7f\udcff', 'braces': '{0} {x} %s %(y)s </pre><script>', 'empty': ''}
-HANDLERS = ['default', 'default', 'debug', 'reraise', 're_raises', 're_raises_http', 're_other']
+HANDLERS = ['default', 'default', 'debug', 'debug', 'reraise', 're_raises', 're_raises_http', 're_other', 'debug_plain_types', 'default_ctx_types']
 ACCEPTS = [None, 'text/html', 'application/json', 'application/xml', 'text/plain', '*/*', 'image/png', 'garbage;;q=x']
 
 
 ODD_SEGMENTS = ['/num/7', '/num/abc', '/num/+%205', '/num/-3', '/num/1_0', '/num/' + '9' * 5000, '/num/\uff11\uff12', '/num/0x10', '/num/1e3', '/num/%20',
                 '/fl/1.5', '/fl/nan/a/b', '/fl/1e5', '/fl/1_0.5', '/fl/inf', '/fl/-', '/fl/.', '/fl/1.2.3', '/fl/' + '1' * 400 + 'e400', '/fl/%2B1.0/x']
+
+
+class CallableEndpoint(object):
+    def __call__(self):
+        from clastic import Response
+        return Response('from a callable object')
 
 
 def make_decliner():
@@ -59,13 +66,24 @@ class OtherErrorHandler(ErrorHandler):
         return BadGateway(detail='replaced %s' % _error.code)
 
 
+class DebugPlainTypesHandler(ContextualErrorHandler):
+    """the debug handler, told (documented attributes) to build the plain error types"""
+    server_error_type = cerrors.InternalServerError
+    not_found_type = cerrors.NotFound
+
+
+class DefaultContextualTypesHandler(ErrorHandler):
+    """the default handler, told to build the contextual 404"""
+    not_found_type = cerrors.ContextualNotFound
+
+
 class ReraisingErrorHandler(ErrorHandler):
     def __init__(self, **kw):
         kw.setdefault('reraise_uncaught', True)
         ErrorHandler.__init__(self, **kw)
 
 
-HANDLER_TYPES = {'reraise': ReraisingErrorHandler, 're_raises': RaisingRenderErrorHandler,
+HANDLER_TYPES = {'debug_plain_types': DebugPlainTypesHandler, 'default_ctx_types': DefaultContextualTypesHandler, 'reraise': ReraisingErrorHandler, 're_raises': RaisingRenderErrorHandler,
                  're_raises_http': RaisingHTTPRenderErrorHandler, 're_other': OtherErrorHandler}
 
 
@@ -74,6 +92,10 @@ def make_handler(kind):
         return None, False
     if kind == 'debug':
         return None, True
+    if kind == 'debug_plain_types':
+        return DebugPlainTypesHandler(), False
+    if kind == 'default_ctx_types':
+        return DefaultContextualTypesHandler(), False
     if kind == 'reraise':
         return ErrorHandler(reraise_uncaught=True), False
     if kind == 're_raises':
@@ -119,6 +141,8 @@ def build_app(cfg):
                         # typed URL bindings: a segment the pattern lets through is not necessarily one the converter takes
                         ('/num/<n:int>', make_function('NUM', False, params_req=('n',), default_value='resp', bound=False)),
                         ('/fl/<x:float>/<rest*>', make_function('FL', False, params_req=('x', 'rest'), default_value='resp', bound=False)),
+                        # endpoints that are callable OBJECTS (no __name__): clastic's own Redirector, a class instance
+                        ('/goto', Redirector('/x', code=302)), ('/obj', CallableEndpoint()),
                         ('/decl', make_decliner()),
                         POST('/decl', make_function('DECL_POST', False, default_value='resp', bound=False))],
                        middlewares=objs('app'), error_handler=eh, **kw)
@@ -151,6 +175,10 @@ def expected(cfg, op):
         out = dispatch_outcome(app_fn, app_fn, faults, 'resp', False)
     elif path == '/decl':
         return ('status', 200) if method == 'POST' else http(404)
+    elif path == '/goto':
+        return ('status', 302)
+    elif path == '/obj':
+        return ('status', 200)
     elif path.startswith(('/num/', '/fl/')):
         return ('status-in', (200, 404) if handler != 're_other' else (200, 502))     # which of the two is C04/C05 territory
     elif path != '/x':
@@ -240,7 +268,7 @@ class C08(Check):
         for pos in positions:
             ops.append(req({pos: self.gen_fault(frng, pos in ('EP', 'RN', 'EP2', 'ITEM_GET', 'ITEM_POST'))}))
             if rng.random() < 0.3:
-                ops.append({'method': rng.choice(['GET', 'DELETE', 'PUT']), 'path': rng.choice(['/nope', '/only-post', '/x/y', '/item', '/item', '/decl']),
+                ops.append({'method': rng.choice(['GET', 'DELETE', 'PUT']), 'path': rng.choice(['/nope', '/only-post', '/x/y', '/item', '/item', '/decl', '/goto', '/obj', '/nope/deeper']),
                             'accept': rng.choice(ACCEPTS), 'faults': {}})
             if rng.random() < 0.25:
                 ops.append({'method': 'GET', 'path': rng.choice(ODD_SEGMENTS), 'accept': rng.choice(ACCEPTS), 'faults': {}})
